@@ -39,8 +39,20 @@ Definition takeover_ok (b : base) (i gid val exp : Z) : bool :=
 
 Definition when (c : bool) (r : rule) : list rule := if c then [r] else [].
 
+(* R-tick (rule 2070): a leader without health checker that is not shutting down refreshes on time. While an attempt is
+   in flight the loop waits at most the per-attempt time-out; otherwise the next attempt starts by the ticker rule
+   (one period after the previous start, or at once when the previous attempt ended later than that). *)
+Definition tick_due (b : base) (ic : Z * icfg) : Z :=
+  let x := inst_of b (fst ic) in
+  if io_hb_te x <? 0 then Z.max (io_hb_ta x + gen_hb_update_timeout (ic_H (snd ic))) (io_hb_ta x + ic_H (snd ic))
+  else Z.max (io_hb_ta x + ic_H (snd ic)) (io_hb_te x).
+Definition ticking (b : base) (ic : Z * icfg) : bool :=
+  let x := inst_of b (fst ic) in io_flag x && negb (io_stopping x) && negb (ic_hashealth (snd ic)).
+Definition overdue_ticks (b : base) (t : Z) : list rule :=
+  flat_map (fun ic => when (ticking b ic && (tick_due b ic <? t)) 2070) (b_cfgs b).
+
 (* the rules; evaluated on the state before the observation *)
-Definition guards (b : base) (te : Z * ev) : list rule :=
+Definition guards0 (b : base) (te : Z * ev) : list rule :=
   match snd te with
   | EValDef v _ _ _ _ _ _ _ _ _ _ => when (match aget (b_vals b) v with Some _ => true | None => false end) 2060
   | EInstDef i _ _ _ _ _ _ _ _ _ _ _ _ _ => when (match aget (b_cfgs b) i with Some _ => true | None => false end) 2061
@@ -56,7 +68,7 @@ Definition guards (b : base) (te : Z * ev) : list rule :=
            when (negb (sok_of b val && (sid_of b val =? i) && view_mem (tok_of b val) exp (io_views (inst_of b i)))) 2004
          else if inner =? sTakeover then when (negb (takeover_ok b i gid val exp)) 2005
          else [2006]
-       else if kind =? kDelete then when (negb (inner =? sStopCtx)) 2007
+       else if kind =? kDelete then when (negb (inner =? sStopCtx)) 2007 ++ when (io_flag (inst_of b i)) 2014
        else []) ++
       when (match aget (b_cfgs b) i with Some _ => false | None => true end) 2008
   | EApply op okind rev val =>
@@ -88,7 +100,9 @@ Definition guards (b : base) (te : Z * ev) : list rule :=
         when (io_state x =? stStopped) 2030 ++ when (io_flag x) 2031 ++
         when (ic_hasdemote (cfg_of b i) && negb (io_demotes x =? io_ended x)) 2045 ++
         match aget (b_rets b) gid with
-        | Some r => when (negb (lr_won r && (lr_i r =? i) && (lr_key r =? ic_key (cfg_of b i)))) 2032
+        | Some r => when (negb (lr_won r && (lr_i r =? i) && (lr_key r =? ic_key (cfg_of b i)))) 2032 ++
+                    (* the claim is raised at the very instant the winning call returns *)
+                    when (negb (lr_t r =? fst te)) 2033
         | None => [2032]
         end
       else
@@ -108,6 +122,8 @@ Definition guards (b : base) (te : Z * ev) : list rule :=
   | EExpire key rev => when (negb (last_rev_of b key =? rev) || (rev =? 0)) 2052
   | _ => []
   end.
+
+Definition guards (b : base) (te : Z * ev) : list rule := guards0 b te ++ overdue_ticks b (fst te).
 
 (* a trace is admitted when every observation satisfies the rules *)
 Fixpoint admits (b : base) (tr : trace) : bool :=
